@@ -32,10 +32,11 @@ ISOLATED_LIMIT_S = 90
 
 
 class Violation(Exception):
-    def __init__(self, bucket, detail=""):
+    def __init__(self, bucket, detail="", case=None):
         super().__init__(f"{bucket}: {detail}")
         self.bucket = bucket
         self.detail = detail
+        self.case = case  # optional: the exact sub-case (e.g. with the injected fault) to replay
 
 
 class Shard:
@@ -103,24 +104,34 @@ def _run_shard(shard, shard_seed, tier, outfile, hangfile, excluded):
             return
         watch.arm(case)
         try:
-            stats["evaluations"] += 1
             nt = False
             try:
                 nt = bool(shard.nontrivial(case))
             except Exception:
                 nt = False
+            chash = case_hash(case)
             if nt:
-                stats["nontrivial"].add(case_hash(case))
-                if len(stats["samples"]) < 3 and stats["evaluations"] % 7 == 1:
+                stats["nontrivial"].add(chash)
+                if len(stats["samples"]) < 3 and stats["evaluations"] % 7 in (0, 1):
                     stats["samples"].append(case)
             if shard.classify is not None:
                 for label in shard.classify(case):
                     stats["labels"][label] += 1
             try:
-                shard.check(case)
+                ret = shard.check(case)
             except Violation as v:
-                failures.append((case, v.bucket, v.detail))
+                stats["evaluations"] += 1
+                failures.append((v.case if v.case is not None else case, v.bucket, v.detail))
                 raise
+            # a check may expand one generated case into many runs (fault / cancel positions)
+            if isinstance(ret, dict):
+                stats["evaluations"] += int(ret.get("evaluations", 1))
+                for key in ret.get("nontrivial", ()):
+                    stats["nontrivial"].add(f"{chash}/{key}")
+                for label, cnt in (ret.get("labels") or {}).items():
+                    stats["labels"][label] += cnt
+            else:
+                stats["evaluations"] += 1
         finally:
             watch.disarm()
 
@@ -132,9 +143,10 @@ def _run_shard(shard, shard_seed, tier, outfile, hangfile, excluded):
                     one(case)
                 except Violation as v:
                     best = seen_buckets.get(v.bucket)
-                    size = len(json.dumps(case, default=str))
+                    vcase = v.case if v.case is not None else case
+                    size = len(json.dumps(vcase, default=str))
                     if best is None or size < best[0]:
-                        seen_buckets[v.bucket] = (size, case, v.detail)
+                        seen_buckets[v.bucket] = (size, vcase, v.detail)
             if seen_buckets:
                 result["status"] = "violation"
                 result["violations"] = [
@@ -316,7 +328,7 @@ def finish(mod, tier, seed, results, known_hit, wall):
         elif r["status"] == "inconclusive":
             inconclusive.append(r["shard"])
 
-    replay_dir = os.path.join(env.VERIF_DIR, "replays", prop)
+    replay_dir = os.path.join(os.environ.get("VERIF_REPLAY_DIR") or os.path.join(env.VERIF_DIR, "replays"), prop)
     lines = []
     for shard_name, v in violations:
         os.makedirs(replay_dir, exist_ok=True)
@@ -357,8 +369,9 @@ def finish(mod, tier, seed, results, known_hit, wall):
     extra = getattr(mod, "EXTRA_COVERAGE", None)
     if extra:
         evidence["coverage"].update(extra(results))
-    os.makedirs(os.path.join(env.VERIF_DIR, "evidence"), exist_ok=True)
-    with open(os.path.join(env.VERIF_DIR, "evidence", f"{prop}.json"), "w") as fh:
+    evidence_dir = os.environ.get("VERIF_EVIDENCE_DIR") or os.path.join(env.VERIF_DIR, "evidence")
+    os.makedirs(evidence_dir, exist_ok=True)
+    with open(os.path.join(evidence_dir, f"{prop}.json"), "w") as fh:
         json.dump(evidence, fh, indent=1, default=str)
     print(f"{prop} {tier} seed={seed}: {evaluations} cases, {len(nontrivial)} distinct non-trivial, "
           f"{len(results)} shards, {len(violations)} violations, {len(errors)} harness errors, "
